@@ -53,7 +53,7 @@ theorem C01_state_valid (ms : List Machine) (hms : MachinesValid ms) (fp fb : F6
 /-- the recursion fuel is sufficient: from a valid state, a transition with fuel
     `2 * unset + 2` (at most 6) raises no fuel fault -/
 theorem C01_fuel (mi : Nat) (ev : Event) (s : Fw σ) (hV : Valid s) (hmi : mi < s.rt.length)
-    (fuel : Nat) (hf : 2 * unset s + 2 ≤ fuel) :
+    (fuel : Nat) (hf : 2 * unset s mi + 2 ≤ fuel) :
     NoNewBad s (transition ρ fuel mi ev s).1 :=
   ((safe_main ρ fuel).1 mi ev s hV hmi hf).1
 
